@@ -74,6 +74,63 @@ PROPS = {
         "technique": "Lean 4 proof (omega over all sample values) + exhaustive correspondence on the 65 536 inputs + e2e oracle",
         "rule": "all 65 536 sample values (digest), reductions stream, e2e with scale_16=true biased to 16-bit inputs of all four 16-bit colour types with and without keys; distinct as C01",
     },
+    "C02": {
+        "lean": ["OxiModel.Props.C02"],
+        "streams": [{"name": "corr-chunks", "quick": 1200, "thorough": 20000}],
+        "oracles": [{"name": "e2e", "args": ["C02"], "quick": 4000, "thorough": 60000},
+                    {"name": "oracle-meta", "args": ["C02"], "quick": 2500, "thorough": 40000}],
+        "claim": "Lean 4 theorems about the serialiser for ALL chunk lists / images: big-endian fields round-trip; every block written by write_png_block is read back exactly by a strict reader "
+                 "(length, name, payload, CRC by construction) and so is any list of framable chunks (framing round trip, by induction); the output starts with the signature, first chunk IHDR, last IEND, "
+                 "exactly one IDAT chunk; PLTE iff indexed with 3 bytes per entry and tRNS never longer than the palette; before-PLTE / after-PLTE placement. output(), key_chunks_size and the CRC are "
+                 "compared byte for byte with the code; the oracles validate every clause of the statement on real outputs with an independent strict reader (incl. metadata and APNG inputs, lossy switches, "
+                 "forced output, strip modes) and require the independent `png` crate to accept and agree on the decoded data.",
+        "note": "Partial: the zlib stream being valid and inflating to the header-implied size with filter types 0-4, and every pixel index lying inside the palette, rest on D1, on C19/C18 and on the oracle; "
+                "'every structural constraint the input satisfies' is checked by the oracle (strict validation of input and output), not proved as a single monotonicity theorem.",
+        "technique": "Lean 4 proof (list induction over the written stream) + exact serialiser correspondence + strict-validator oracle",
+        "partial_note": "zlib validity and index-in-palette clauses are oracle-checked",
+        "rule": "corr-chunks: random PngData (headers of all types, aux chunks incl. pre-IDAT fcTL, 0-2 frames, arbitrary IDAT bytes); oracles: generated files x options (Any profile) incl. files with "
+                "gAMA/cHRM/sBIT/sRGB/iCCP/bKGD/hIST/pHYs/text/private chunks and APNGs; distinct = distinct (input, options)",
+    },
+    "C07": {
+        "lean": ["OxiModel.Props.C07"],
+        "streams": [{"name": "corr-chunks", "quick": 1200, "thorough": 20000},
+                    {"name": "corr-front", "quick": 2500, "thorough": 40000}],
+        "oracles": [{"name": "oracle-meta", "args": ["C07"], "quick": 3000, "thorough": 50000}],
+        "claim": "Lean 4 theorems for all chunks, states and policies: the critical chunks (IHDR, PLTE, tRNS, IDAT) are handled identically under every policy (cannot be stripped); an ordinary ancillary chunk is "
+                 "recorded exactly once unchanged if the policy keeps it and leaves no trace otherwise; the C2PA rule; the serialiser emits every recorded chunk exactly as often as recorded (count preservation), "
+                 "on the same side of IDAT, and keeps the input order within the after-PLTE group and within the rest; conditional drops touch only bKGD/sBIT/hIST/sRGB/iCCP. The full order clause is proved "
+                 "FALSE of the model (`order_not_preserved_across_groups`, the input bKGD gAMA) and replayed on the code: known finding. from_slice, output, pre/postprocess are compared with the code; the "
+                 "oracle checks kept/stripped/invented/side/order on real outputs for random chunk multisets x all five policy shapes.",
+        "note": "Known finding (by design of the two-pass emission around PLTE): a kept chunk of {bKGD,hIST,tRNS,fcTL} that precedes other pre-IDAT chunks is emitted after them; any other reordering is a violation.",
+        "technique": "Lean 4 proof (policy and serialiser as list functions) + correspondence + e2e policy oracle",
+        "rule": "generated files with specification-conformant chunk multisets (before PLTE / between PLTE and IDAT / after IDAT, known, private, unsafe-to-copy, C2PA) x {None,Safe,All,Strip(list),Keep(list)} x other options",
+    },
+    "C10": {
+        "lean": ["OxiModel.Props.C10"],
+        "streams": [{"name": "corr-chunks", "quick": 1200, "thorough": 20000},
+                    {"name": "corr-front", "quick": 2500, "thorough": 40000}],
+        "oracles": [{"name": "oracle-meta", "args": ["C10"], "quick": 2500, "thorough": 40000}],
+        "claim": "Lean 4 theorems: fcTL round trip (all eight fields, any sequence number), frame data written unchanged behind its number, two chunks per frame in order, sequence numbers consecutive from the "
+                 "number of pre-IDAT fcTL chunks, an image with acTL has every transformation class switched off (hence, by C08, unchanged colour type/depth/palette/interlacing), a frame is replaced only by a "
+                 "smaller stream with all other fields kept. Parsing (from_slice incl. split fdAT, numbering errors) and serialisation of frames are compared with the code; the oracle checks frame count, order, "
+                 "all control fields, play count, default-image membership, header, per-frame pixels (alphaEq under alpha optimisation), numbering, and the stripped-animation case.",
+        "note": "Frame pixel fidelity of recompression = C19/C18 at frame geometry + D1; checked by the oracle. Policies that strip only some animation chunks make the call fail (allowed).",
+        "technique": "Lean 4 proof (byte-level round trips, induction over frames) + correspondence + APNG oracle",
+        "rule": "APNGs with 0-3 extra frames, sub-rectangle frames, frame data split over 1-3 fdAT chunks, default image in or out of the animation, all colour types/depths, interlaced or not x options x strip policies",
+    },
+    "C14": {
+        "lean": ["OxiModel.Props.C14"],
+        "streams": [{"name": "corr-chunks", "quick": 1500, "thorough": 25000}],
+        "oracles": [{"name": "oracle-meta", "args": ["C14"], "quick": 3000, "thorough": 50000}],
+        "claim": "Lean 4 theorems over all chunk lists, options and profile contents: the complete case analysis of the colour-space stage of preprocess_chunks (unchanged / iCCP removed only with stripping on, sRGB "
+                 "kept and an sRGB chunk present / replaced by sRGB carrying the rendering intent only with stripping on, sRGB kept and a recognised profile / recompressed to the same inflated profile); a kept ICC "
+                 "profile switches grayscale conversion off (so by C08 no gray<->colour move); sRGB without stripping does too; after a gray<->colour conversion no sRGB/iCCP chunk is left; postprocess only drops, "
+                 "and only the five names under their conditions. preprocess_chunks, postprocess_chunks, srgb_rendering_intent and the iCCP framing are compared with the code on generated chunk lists and "
+                 "profiles (recognised ids, other, zero id, short, undecodable, unknown method); the e2e oracle checks the property's clauses on gray-valued colour images.",
+        "note": "Inflate/deflate of the profile are parameters of the model (D1); the three CRC-identified known-bad profiles are modelled but not generated (no such profile available offline).",
+        "technique": "Lean 4 proof (exhaustive case analysis of the decision logic) + exact correspondence + e2e oracle",
+        "rule": "chunk lists with any of {sRGB, iCCP(recognised/other/zero-id/short/undecodable/unknown-method), both, neither, acTL} x strip policies x recoding x grayscale switch; e2e: gray-valued RGB(A) and other images",
+    },
     "C04": {
         "lean": ["OxiModel.Props.C04"],
         "streams": [{"name": "corr-decision", "quick": 3000, "thorough": 50000}],
